@@ -627,6 +627,9 @@ class StateMachine:
         if state is None and self.__default_state is not None:
             state = self.__default_state
             if self.__state != state:
+                if self.__state is not None:
+                    # a regular state is being abandoned: stop properly
+                    self.done()
                 state.ran = False
                 self.__state = state
 
